@@ -99,3 +99,30 @@ func ZZH_C12_binary_keys() {
 	check("reopen", l2)
 	checkB("reopen", l2)
 }
+
+// ZZH_C12_rollback_drops_flushed_block: block 1 is committed; block 2 is executed and flushed (its
+// values are in the account cache, its root is the ledger's current root) but its Commit has not
+// happened - the executor persists asynchronously - when the ledger is rolled back to height 1 (the
+// executor does that when consensus delivers another block for a height it already holds). The state
+// is exactly that of block 1: reads, the root chain, and the root of the block executed next.
+func ZZH_C12_rollback_drops_flushed_block() {
+	zz.HashForkOff()
+	store := zz.NewStore()
+	cache, _ := NewAccountCache()
+	l := zzNewLedger(store, cache)
+	a := zzAddrs[0]
+	v1 := []byte{zz.U8("v1")}
+	l.SetState(a, []byte("k"), v1, nil)
+	root1 := zzCommit(l, 1)
+	l.SetState(a, []byte("k"), []byte{zz.U8("v2")}, nil)
+	l.SetState(a, []byte("k2"), []byte{zz.U8("w2")}, nil)
+	_, _ = l.FlushDirtyData() // block 2: flushed, never committed
+	err := l.RollbackState(1)
+	zz.Tag("C12.F-rollback-with-flushed-block", true)
+	zz.Assert("C12.flushed.rollback-ok", err == nil)
+	ok, g := l.GetState(a, []byte("k"))
+	zz.Assert("C12.flushed.value-of-block-1-read-back", zz.And(ok, zz.EqBytes(g, v1)))
+	ok2, _ := l.GetState(a, []byte("k2"))
+	zz.Assert("C12.flushed.key-of-the-dropped-block-gone", !ok2)
+	zz.Assert("C12.flushed.root-chain-continues-from-block-1", zz.EqBytes(l.prevJnlHash.Bytes(), root1.Bytes()))
+}
